@@ -423,11 +423,15 @@ pub fn m_frame(kind: Kind, buf: &[u8], cfg: u8, obs: &Obs, v: &mut Vec<Violation
                 }
             };
             let hdr0 = obs.headers.first().map(|h| h.name.off);
+            // (a first header reported as starting before the header block is a field error, which
+            // other properties own; it must not move the framing expectation)
+            let hdr0_bogus = hdr0.map_or(false, |h| h < sl || h == usize::MAX);
             // With obsolete folding on, a whitespace-led line after a header line continues that
             // header (C14) and is no line of its own; telling the two apart needs the grammar, so
             // under S+F the whitespace-only candidate is only used for the line directly after the
             // start line, and otherwise the rule is weakened to its sound core (below).
             let fold = kind == Kind::Resp && cfg & 2 != 0;
+            let hdr0 = if hdr0_bogus { None } else { hdr0 };
             let mut ls = sl;
             let mut cand = None;
             while let Some(p) = buf[ls..].iter().position(|&b| b == b'\n') {
@@ -437,13 +441,13 @@ pub fn m_frame(kind: Kind, buf: &[u8], cfg: u8, obs: &Obs, v: &mut Vec<Violation
                     cand = Some(nl + 1);
                     break;
                 }
-                if s_opt && (!fold || ls == sl) && hdr0.map_or(true, |h| ls < h) && line_is_blank_ws(line) {
+                if s_opt && ((!fold && !hdr0_bogus) || ls == sl) && hdr0.map_or(true, |h| ls < h) && line_is_blank_ws(line) {
                     cand = Some(nl + 1);
                     break;
                 }
                 ls = nl + 1;
             }
-            if s_opt && fold {
+            if s_opt && (fold || hdr0_bogus) {
                 // sound core: the head never extends past the first strictly empty line, and the
                 // line it ends with is empty, or whitespace-only before the first stored header
                 let upper = cand.unwrap_or(usize::MAX);
